@@ -38,11 +38,26 @@ func addAccount(idx *AccountIndex, seen map[string]bool, name string) {
 func addAccountToIndex(idx *AccountIndex, name string) {
 	idx.All = append(idx.All, name)
 
-	parts := strings.Split(name, ":")
-	for i := 1; i < len(parts); i++ {
-		prefix := strings.Join(parts[:i], ":") + ":"
+	for _, prefix := range AccountPrefixes(name) {
 		idx.ByPrefix[prefix] = append(idx.ByPrefix[prefix], name)
 	}
+}
+
+// maxIndexedAccountLevels bounds the prefixes indexed per account name: the
+// prefixes of one name together are quadratic in the number of its segments,
+// and a lookup that misses the index falls back to the list of all accounts.
+const maxIndexedAccountLevels = 32
+
+// AccountPrefixes returns the prefixes of an account name that end in a colon
+// ("a:", "a:b:" for "a:b:c"), at most maxIndexedAccountLevels of them.
+func AccountPrefixes(name string) []string {
+	var prefixes []string
+	for i := 0; i < len(name) && len(prefixes) < maxIndexedAccountLevels; i++ {
+		if name[i] == ':' {
+			prefixes = append(prefixes, name[:i+1])
+		}
+	}
+	return prefixes
 }
 
 func CollectPayees(journal *ast.Journal) []string {
